@@ -11,6 +11,9 @@ Structural clauses decided:
  R3 zero at l_ref   in every force / energy expression of the three laws the length enters only through the difference
                     `(l - ... - self.l_ref)` (so force and energy vanish structurally at l = l_ref with zero rate / zero
                     damper elongation)
+ R5 interface shapes   where the supported subsystems return arrays of different rank for the same scalar-interface method (W_l: 1-D in
+                    TwoPointInteraction, (nu, 1) in Revolute; W_l_q: 2-D vs (nu, 1, nq)) every use in a force law is shape-normalised
+                    (`.reshape(...)`, `.ravel()`, an argument of np.outer): otherwise the element cannot be assembled/evaluated on one of them
  R4 no overwrite    an explicitly given l_ref is never overwritten (all stores to self.l_ref are __init__ or guarded)
 """
 from __future__ import annotations
@@ -41,6 +44,8 @@ def run(ctx):
     rep.rule("C09.R2", "sibling idiom of the default reference length", 6)
     rep.rule("C09.R3", "length enters force/energy only through (l - ... - l_ref)", 6)
     rep.rule("C09.R4", "explicit l_ref is never overwritten", 3)
+    rep.rule("C09.R5", "rank-normalised use of scalar-interface arrays whose rank differs between the supported subsystems", 8)
+    r5_interface_shapes(ctx)
     model = ctx.model
     ext = protocol.external_setters(ctx)
     for rel, cname in LAWS:
@@ -147,6 +152,73 @@ def run(ctx):
                 rep.ok("C09.R3", Cm, f"{len(occ)} occurrence(s) of the length, all inside (l - ... - self.l_ref)")
 
 
+def _rank_of(fn):
+    """rank of the array a provider method returns, from its syntax: (...).reshape(a, b) -> 2, np.zeros((a, b, c)) -> 3,
+    np.concatenate/hstack of 1-D parts -> 1; None when not recognised."""
+    rets = [n for n in ast.walk(fn) if isinstance(n, ast.Return) and n.value is not None]
+    if len(rets) != 1:
+        return None
+    v = rets[0].value
+
+    def rank(e, depth=0):
+        if isinstance(e, ast.Call):
+            if isinstance(e.func, ast.Attribute) and e.func.attr == "reshape":
+                args = e.args[0].elts if len(e.args) == 1 and isinstance(e.args[0], ast.Tuple) else e.args
+                return len(args)
+            f = (dotted(e.func) or "").split(".")[-1]
+            if f in ("zeros", "empty", "ones") and e.args:
+                a0 = e.args[0]
+                return len(a0.elts) if isinstance(a0, ast.Tuple) else 1
+            if f in ("concatenate", "hstack"):
+                return 1
+        if isinstance(e, ast.Name) and depth < 3:
+            defs = [a.value for a in ast.walk(fn) if isinstance(a, ast.Assign) and any(isinstance(t, ast.Name) and t.id == e.id for t in a.targets)]
+            if defs:
+                return rank(defs[0], depth + 1)
+        return None
+    return rank(v)
+
+
+def r5_interface_shapes(ctx):
+    rep = ctx.rep
+    model = ctx.model
+    differing = {}
+    for m in ("W_l", "W_l_q", "l_q", "l_dot_q", "l_dot_u"):
+        ranks = {}
+        for cname in tables.SCALAR_SUBSYSTEMS:
+            ci = model.cls(cname)
+            fn = model.find_method(ci, m)
+            fn = fn[1] if isinstance(fn, tuple) else fn
+            if fn is None:
+                raise AnalysisError(f"{cname}.{m} vanished")
+            ranks[cname] = _rank_of(fn)
+        if None not in ranks.values() and len(set(ranks.values())) > 1:
+            differing[m] = ranks
+    if "W_l" not in differing or "W_l_q" not in differing:
+        rep.note(f"C09.R5: providers now agree on the rank of W_l / W_l_q ({differing}); normalisation no longer required")
+    consumers = [("cardillo/force_laws/_base.py", "ScalarForceLawBase"), ("cardillo/force_laws/maxwell_element.py", "MaxwellElement")]
+    n = 0
+    for rel, cname in consumers:
+        cls = ctx.repo.get(rel, cname)
+        for fn in [x for x in cls.body if isinstance(x, ast.FunctionDef)]:
+            for call in [c for c in ast.walk(fn) if isinstance(c, ast.Call) and isinstance(c.func, ast.Attribute) and c.func.attr in differing
+                         and norm_src(c.func.value) == "self.subsystem"]:
+                n += 1
+                par = getattr(call, "_parent", None)
+                C = f"{rel}:{cname}.{fn.name}"
+                ok = (isinstance(par, ast.Attribute) and par.attr in ("reshape", "ravel", "flatten")) or \
+                     (isinstance(par, ast.Call) and (dotted(par.func) or "").split(".")[-1] in ("outer", "ravel"))
+                r = differing[call.func.attr]
+                if ok:
+                    rep.ok("C09.R5", C, f"{norm_src(par)[:90]}: rank-normalised")
+                else:
+                    rep.bad("C09.R5", C, _stmt(call), f"`{norm_src(call)}` is used without shape normalisation although the supported subsystems return different ranks "
+                            f"({', '.join(f'{k}: {v}-D' for k, v in r.items())}); on one of them the expression broadcasts to the wrong shape or fails "
+                            f"(the sibling ScalarForceLawBase always applies .reshape)", f"{rel}:{call.lineno}")
+    if n < 8:
+        raise AnalysisError(f"only {n} uses of rank-differing interface methods found in the force laws")
+
+
 def _stmt(n):
     from ..core import enclosing_stmt
     return enclosing_stmt(n)
@@ -185,7 +257,15 @@ MUTANTS = [
          old="        return 0.5 * self.k * (self.subsystem.l(t, q[1:]) - l_d - self.l_ref) ** 2", new="        return 0.5 * self.k * (self.subsystem.l(t, q[1:]) - l_d + self.l_ref) ** 2", expect="C09.R3"),
 ]
 MUTANTS = [m for m in MUTANTS if not m.get("optional")]
+MUTANTS += [
+    dict(id="c09-r5-1", canary=True, what="MaxwellElement.h uses W_l without reshape (original defect: cannot be assembled on a Revolute)", file=MX,
+         old="        return self.force(t, q, u) * self.subsystem.W_l(t, q[1:]).reshape(self._nu)", new="        return self.force(t, q, u) * self.subsystem.W_l(t, q[1:])", expect="C09.R5"),
+    dict(id="c09-r5-2", what="ScalarForceLawBase._h drops the reshape", file="cardillo/force_laws/_base.py",
+         old="        return self.la_c(t, q, u) * self.subsystem.W_l(t, q).reshape(self.subsystem._nu)\n", new="        return self.la_c(t, q, u) * self.subsystem.W_l(t, q)\n", expect="C09.R5"),
+]
 NEUTRAL = [
+    dict(id="c09-n-r5", canary=True, what="MaxwellElement.h normalises with ravel()", file=MX,
+         old="        return self.force(t, q, u) * self.subsystem.W_l(t, q[1:]).reshape(self._nu)", new="        return self.force(t, q, u) * self.subsystem.W_l(t, q[1:]).ravel()"),
     dict(id="c09-n1", canary=True, what="Spring energy written with a local", file=SP,
          old="        return 0.5 * self.k * (l - self.l_ref) ** 2", new="        dl = l - self.l_ref\n        return 0.5 * self.k * dl**2"),
 ]
